@@ -124,7 +124,7 @@ func Gen(f Focus, thorough bool) *rapid.Generator[Script] {
 		if s.Kind == KindV2Unite {
 			s.SharedArray = rapid.Bool().Draw(t, "sharedarr")
 			if s.SharedArray {
-				s.SharedLayout = rapid.IntRange(0, 2).Draw(t, "sharedlayout")
+				s.SharedLayout = rapid.IntRange(0, 3).Draw(t, "sharedlayout")
 			}
 			s.NilEmpty = rapid.Bool().Draw(t, "nilempty")
 		}
@@ -151,9 +151,15 @@ func Gen(f Focus, thorough bool) *rapid.Generator[Script] {
 		}
 		if f.Stop && s.Kind == KindV1Join {
 			sp := &StopPlan{Mode: pick(t, "smode", "stop", "stop", "cancel")}
-			if rapid.IntRange(0, 2).Draw(t, "strig") != 0 {
+			switch trig := rapid.IntRange(0, 3).Draw(t, "strig"); {
+			case trig == 3:
+				// in the middle of a burst of writes
+				sp.AfterRecv = -1
+				sp.AfterWrite = rapid.IntRange(1, 8).Draw(t, "afterwrite")
+				s.NoClose = rapid.Bool().Draw(t, "noclose")
+			case trig != 0:
 				sp.AfterRecv = rapid.IntRange(0, 3).Draw(t, "after")
-			} else {
+			default:
 				sp.AfterRecv = -1
 				sp.AtTime = pick(t, "at", int64(0), 1, T/2, T, T+1, 3*T, 7*T)
 				s.NoClose = rapid.Bool().Draw(t, "noclose")
